@@ -261,11 +261,13 @@ impl<F: Write + Seek> MiniAllocator<F> {
         let minifat_entries_per_sector = self.directory.sector_len() / 4;
         if self.minifat_start_sector == consts::END_OF_CHAIN {
             debug_assert!(self.minifat.is_empty());
-            self.minifat_start_sector =
-                self.directory.begin_chain(SectorInit::Fat)?;
+            // Only remember the new MiniFAT chain once the header points to
+            // it; if a write fails, a later call must start over.
+            let start = self.directory.begin_chain(SectorInit::Fat)?;
             let mut header = self.directory.seek_within_header(60)?;
-            header.write_le_u32(self.minifat_start_sector)?;
+            header.write_le_u32(start)?;
             header.write_le_u32(1)?;
+            self.minifat_start_sector = start;
         } else if self.minifat.len() % minifat_entries_per_sector == 0 {
             // The MiniFAT chain keeps its sectors when trailing free entries
             // are trimmed from `self.minifat`, so only extend the chain if it
